@@ -28,6 +28,8 @@ public class FPImpl {
   @TLAPlusOperator(identifier="FSqrt", module="FP", warn=false) public static Value FSqrt(Value a) { return v(Math.sqrt(d(a))); }
   @TLAPlusOperator(identifier="FExp", module="FP", warn=false) public static Value FExp(Value a) { return v(StrictMath.exp(d(a))); }
   @TLAPlusOperator(identifier="FLog", module="FP", warn=false) public static Value FLog(Value a) { return v(StrictMath.log(d(a))); }
+  @TLAPlusOperator(identifier="FExpm1", module="FP", warn=false) public static Value FExpm1(Value a) { return v(StrictMath.expm1(d(a))); }
+  @TLAPlusOperator(identifier="FLog1p", module="FP", warn=false) public static Value FLog1p(Value a) { return v(StrictMath.log1p(d(a))); }
   @TLAPlusOperator(identifier="FSin", module="FP", warn=false) public static Value FSin(Value a) { return v(StrictMath.sin(d(a))); }
   @TLAPlusOperator(identifier="FCos", module="FP", warn=false) public static Value FCos(Value a) { return v(StrictMath.cos(d(a))); }
   @TLAPlusOperator(identifier="FTan", module="FP", warn=false) public static Value FTan(Value a) { return v(StrictMath.tan(d(a))); }
